@@ -83,9 +83,20 @@ func (r *Run) cb(kind string) int64 {
 
 // New prepares a client (not started).
 func New(uri string, hc *http.Client) *Run {
+	return NewOpts(uri, hc, false)
+}
+
+// NewOpts: with bare set, the optional callbacks (OnDownload*, OnDecodeError) are left nil, as
+// most applications do: the client installs its own defaults in Start.
+func NewOpts(uri string, hc *http.Client, bare bool) *Run {
 	r := &Run{}
 	c := &gohlslib.Client{URI: uri, HTTPClient: hc}
 	r.C = c
+	defer func() {
+		if bare {
+			c.OnDownloadPrimaryPlaylist, c.OnDownloadStreamPlaylist, c.OnDownloadSegment, c.OnDownloadPart, c.OnDecodeError = nil, nil, nil, nil, nil
+		}
+	}()
 	c.OnDownloadPrimaryPlaylist = func(u string) {
 		r.mu.Lock()
 		r.cb("dl-primary")
